@@ -145,12 +145,12 @@ let hist_script (s : string) =
 let hist_optnat s = if s = "-" then None else Some (hist_nat_of_int (int_of_string s))
 let hist_state_str s =
   let b l = if l = [] then "0" else "1" in
-  Printf.sprintf "alive=%d ep=%s fs=%s fl=%s to=%s nb=%d d=%s%s%s%s%s%s objs=%s pool=%d susp=%d leaked=%d live=%d"
+  Printf.sprintf "alive=%d ep=%s fs=%s fl=%s to=%s nb=%d d=%s%s%s%s%s%s objs=%s pool=%d susp=%d leaked=%d live=%d le=%d"
     (if s.st_alive then 1 else 0) (hist_str_optn s.st_ep) (hist_str_optn s.st_fsize) (string_of_n s.st_flags)
     (string_of_n s.st_timeout) (if s.st_notebook = None then 0 else 1)
     (b s.st_rule_flags) (b s.st_ns_unsat) (b s.st_disabled) (b s.st_matches) (b s.st_unconfirmed) (b s.st_required)
     (hist_objs_str s.st_objs) (hist_int_of_nat s.st_pool) (if s.st_susp = None then 0 else 1)
-    (hist_int_of_nat s.st_leaked) (hist_int_of_nat (c10_heap_live s))
+    (hist_int_of_nat s.st_leaked) (hist_int_of_nat (c10_heap_live s)) (if s.st_last_error = None then 0 else 1)
 let hist_trace_str = function
   | TScan (ms, rc) -> "T" ^ hist_msgs_str ms ^ ":" ^ string_of_z rc
   | TRes r -> "R" ^ hist_res_str r
